@@ -41,14 +41,19 @@ theorem paths_congr (allow allow' : Res → Act → Bool) :
     have hb := ih (fun k hk => h k (by simp [keys, hk]))
     simp [paths, hb]
 
-/-- "no effect on any path and refused on every path", in terms of `run`. -/
-theorem run_clean_iff (pol : Policy) (cl : Client) (s : Stmt) :
-    ((run pol cl s).effects = [] ∧ (run pol cl s).denied = true) ↔ safeUnder (pol cl) s = true := by
-  simp only [run, safeUnder, List.flatMap_eq_nil_iff, List.all_eq_true, Bool.and_eq_true,
+/-- "no effect on any path and refused on every path", in terms of `runWith`. -/
+theorem runWith_clean_iff (allow : Res → Act → Bool) (s : Stmt) :
+    ((runWith allow s).effects = [] ∧ (runWith allow s).denied = true) ↔ safeUnder allow s = true := by
+  simp only [runWith, safeUnder, List.flatMap_eq_nil_iff, List.all_eq_true, Bool.and_eq_true,
     List.isEmpty_iff]
   constructor
   · intro ⟨h1, h2⟩ p hp; exact ⟨h1 p hp, h2 p hp⟩
   · intro h; exact ⟨fun p hp => (h p hp).1, fun p hp => (h p hp).2⟩
+
+/-- "no effect on any path and refused on every path", in terms of `run`. -/
+theorem run_clean_iff (pol : Policy) (cl : Client) (s : Stmt) :
+    ((run pol cl s).effects = [] ∧ (run pol cl s).denied = true) ↔ safeUnder (pol cl) s = true :=
+  runWith_clean_iff (pol cl) s
 
 /-- If every check of the body is the handler's own and the policy denies it, the body runs
 exactly as under the deny-all policy. -/
@@ -60,6 +65,18 @@ theorem paths_denied_eq (h : Handler) (allow : Res → Act → Bool)
   simp only [Handler.onlyOwnKey, List.all_eq_true, Bool.and_eq_true, beq_iff_eq] at hk
   obtain ⟨h1, h2⟩ := hk k hkm
   simp [denyAll, h1, h2, hden]
+
+/-- Soundness of `checkedFirst` for ANY source of answers (`allow` may be the policy alone or
+the whole of `ensureAuthorizationPermission`): if the handler's own question is answered
+"no", nothing happens and every path refuses. -/
+theorem checkedFirst_sound_with (h : Handler) (hc : h.checkedFirst = true)
+    (allow : Res → Act → Bool) (hden : allow h.res h.act = false) :
+    (runWith allow h.body).effects = [] ∧ (runWith allow h.body).denied = true := by
+  simp only [Handler.checkedFirst, Bool.and_eq_true] at hc
+  have e := paths_denied_eq h allow hc.1 hden
+  rw [runWith_clean_iff]
+  simp only [safeUnder] at hc ⊢
+  rw [e]; exact hc.2
 
 /-- Soundness of `checkedFirst`, for every policy and client. -/
 theorem checkedFirst_sound (h : Handler) (hc : h.checkedFirst = true)
@@ -82,5 +99,91 @@ theorem violates_witness (h : Handler) (hv : h.violates = true) (cl : Client) :
   have : safeUnder denyAll h.body = true := hcl
   rw [this] at hv
   cases hv
+
+-- ---------------------------------------------------------------- the decision tree
+
+theorem Cmp.evalNat_zero_class (c : Cmp) (n : Nat) :
+    c.evalNat n 0 = c.evalNat (if n = 0 then 0 else 1) 0 := by
+  cases n with
+  | zero => simp
+  | succ k => cases c <;> simp [Cmp.evalNat]
+
+/-- The tree depends on the identity only through "present" and "non-empty". -/
+theorem DCond.eval_bits (i : DIn) (c : DCond) :
+    c.eval i = c.evalB i.enabled i.ident.isSome (decide ((i.ident.getD "").length ≠ 0)) i.enfErr i.enfOk := by
+  cases c with
+  | idVsEmpty c =>
+    simp only [DCond.eval, DCond.evalB]
+    rw [Cmp.evalNat_zero_class]
+    cases hi : i.ident with
+    | none => simp
+    | some s =>
+      by_cases h0 : s.length = 0 <;> simp [h0]
+  | _ => rfl
+
+theorem DTree.eval_bits (i : DIn) (t : DTree) :
+    t.eval i = t.evalB i.enabled i.ident.isSome (decide ((i.ident.getD "").length ≠ 0)) i.enfErr i.enfOk := by
+  induction t with
+  | ret o => rfl
+  | lost => rfl
+  | ite c t e iht ihe => simp only [DTree.eval, DTree.evalB, DCond.eval_bits, iht, ihe]
+
+-- ---------------------------------------------------------------- sessions
+
+/-- Induction over the messages of a session (any length): whatever the loop did for a
+message that was not granted — an effect, or no refusal — cannot happen when the loop body
+asks its own permission first and stops on a denial. Every `Did` of every execution
+therefore belongs to a message whose (client, stream, action) entry was in the policy in
+force when that message was processed. -/
+theorem sessions_sound (h : Handler) (hc : h.checkedFirst = true) (cl : Client) :
+    ∀ (msgs : List Msg) (i0 : Nat), ∀ tr ∈ sessions h.res cl h.body i0 msgs, ∀ d ∈ tr,
+      (d.effects ≠ [] ∨ d.refused = false) →
+      ∃ k m, d.idx = i0 + k ∧ msgs[k]? = some m ∧ m.pol cl m.stream h.act = true := by
+  simp only [Handler.checkedFirst, Bool.and_eq_true] at hc
+  intro msgs
+  induction msgs with
+  | nil =>
+    intro i0 tr htr d hd
+    simp [sessions] at htr
+    subst htr
+    cases hd
+  | cons m ms ih =>
+    intro i0 tr htr d hd hbad
+    simp only [sessions, List.mem_flatMap] at htr
+    obtain ⟨p, hp, htr⟩ := htr
+    -- the head message
+    have head : d = ⟨i0, p.effects, p.refusal⟩ →
+        ∃ k m', d.idx = i0 + k ∧ (m :: ms)[k]? = some m' ∧ m'.pol cl m'.stream h.act = true := by
+      intro hd0
+      by_cases hg : m.pol cl m.stream h.act = true
+      · exact ⟨0, m, by simp [hd0], by simp, hg⟩
+      · exfalso
+        have hden : m.allow h.res cl h.res h.act = false := by
+          simp [Msg.allow]; simpa using hg
+        have e := paths_denied_eq h (m.allow h.res cl) hc.1 hden
+        rw [e] at hp
+        have hs := hc.2
+        simp only [safeUnder, List.all_eq_true, Bool.and_eq_true, List.isEmpty_iff] at hs
+        obtain ⟨he, hr⟩ := hs p hp
+        subst hd0
+        rcases hbad with hb | hb
+        · exact hb he
+        · simp [hr] at hb
+    -- the rest of the session
+    have tail : ∀ tr', tr' ∈ sessions h.res cl h.body (i0 + 1) ms → d ∈ tr' →
+        ∃ k m', d.idx = i0 + k ∧ (m :: ms)[k]? = some m' ∧ m'.pol cl m'.stream h.act = true := by
+      intro tr' htr' hd'
+      obtain ⟨k, m', hk, hm, hg⟩ := ih (i0 + 1) tr' htr' d hd' hbad
+      exact ⟨k + 1, m', by omega, by simpa using hm, hg⟩
+    split at htr
+    · simp at htr
+      subst htr
+      simp at hd
+      exact head hd
+    · simp only [List.mem_map] at htr
+      obtain ⟨tr', htr', rfl⟩ := htr
+      rcases List.mem_cons.mp hd with hd0 | hd'
+      · exact head hd0
+      · exact tail tr' htr' hd'
 
 end Liftbridge.Authz
